@@ -24,6 +24,10 @@
      G9  T{a,l:collection of U}     a NESTED collection:  T.default{a,l/default} T.tiny{a} T.ext{a,l/tiny};  U as in G2
      G10 G5 with the default view listing p BEFORE o:  T.default{a,p/default,o/tiny}  T.tiny{a}
          (a view lists its attributes in the order written here; the implicit default view in declaration order)
+     G11 T{a,o:U,p:W,q:U}  W a LOOKALIKE of U: another result type (own name and identifier) with the same attribute names,
+         types, required attributes and validations, whose views list DIFFERENT attributes under the same view names:
+         U.tiny{x}  W.tiny{y}  (W.default{x,y} as U);  T.default{a,o/tiny,p/tiny,q/tiny}  T.tiny{a}
+         (the dual of G5/G8/G10, where ONE type is used twice: two types must never share a projection)
 
    Every graph (G4 excepted, whose generated code does not compile: C01's business) is taken in all its VARIANTS,
    enumerated by TLC; a variant k = [g, order, req]:
@@ -59,7 +63,7 @@ CONSTANTS Deviations,   \* named deviations, see below
      views.required_nested_result_unchecked   the view validators never check that a required attribute whose type is a
                                               result type is present *)
 
-Graphs == {"G1", "G2", "G3", "G4", "G5", "G6", "G7", "G8", "G9", "G10"}
+Graphs == {"G1", "G2", "G3", "G4", "G5", "G6", "G7", "G8", "G9", "G10", "G11"}
 Orders == {"first", "last", "implicit"}
 Reqs   == {"base", "sel", "oth", "nest"}
 Range(s) == {s[i] : i \in DOMAIN s}
@@ -80,9 +84,11 @@ BaseAttrs(g, t) ==
     [] g = "G7" /\ t = "T"          -> <<P("a"), P("d")>>
     [] g = "G8" /\ t = "T"          -> <<P("a"), R("o", "U"), R("p", "U"), R("q", "U"), R("r", "U")>>
     [] g = "G9" /\ t = "T"          -> <<P("a"), L("l", "U")>>
-    [] t = "U"                      -> <<P("x"), P("y")>>
+    [] g = "G11" /\ t = "T"         -> <<P("a"), R("o", "U"), R("p", "W"), R("q", "U")>>
+    [] t \in {"U", "W"}             -> <<P("x"), P("y")>>
 \* types of a graph, in declaration order; the method result is T, or a collection of T
-TypesOf(g) == IF g \in {"G1", "G4", "G7"} THEN <<"T">> ELSE <<"U", "T">>
+TypesOf(g) == IF g \in {"G1", "G4", "G7"} THEN <<"T">> ELSE IF g = "G11" THEN <<"U", "W", "T">> ELSE <<"U", "T">>
+Like(t) == IF t = "W" THEN "U" ELSE t     \* W is U's lookalike: same attributes, required and validations, other views
 TopColl(g) == g \in {"G3", "G7"}
 
 \* a view entry: a primitive attribute; a nested result type under the view the parent view names; a nested result type
@@ -104,8 +110,10 @@ BaseViews(g, t) ==
     [] g = "G8" /\ t = "T" -> <<V("default", <<Prim("a"), Nest("o", "U", "tiny"), Nest("p", "U", "tiny"), Nest("q", "U", "tiny"), Nest("r", "U", "tiny")>>),
                                 V("tiny", <<Prim("a")>>)>>
     [] g = "G9" /\ t = "T" -> <<V("default", <<Prim("a"), Nest("l", "U", "default")>>), V("tiny", <<Prim("a")>>), V("ext", <<Prim("a"), Nest("l", "U", "tiny")>>)>>
+    [] g = "G11" /\ t = "T" -> <<V("default", <<Prim("a"), Nest("o", "U", "tiny"), Nest("p", "W", "tiny"), Nest("q", "U", "tiny")>>), V("tiny", <<Prim("a")>>)>>
     [] t = "U" -> UViews
-BaseReq(g, t) == IF t = "U" THEN {"x"} ELSE IF g = "G7" THEN {"a", "d"} ELSE {"a"}
+    [] t = "W" -> <<V("default", <<Prim("x"), Prim("y")>>), V("tiny", <<Prim("y")>>)>>
+BaseReq(g, t) == IF t \in {"U", "W"} THEN {"x"} ELSE IF g = "G7" THEN {"a", "d"} ELSE {"a"}
 
 \* which optional attributes the service method set in the value it returns (before the required primitives are added)
 ValueBase(g) ==
@@ -117,6 +125,7 @@ ValueBase(g) ==
     [] g = "G7" -> {{"a", "d"}}
     [] g = "G8" -> {{"a", "o", "o.x", "o.y", "p", "p.x", "p.y", "q", "q.x", "q.y", "r", "r.x", "r.y"}, {"a", "p", "p.x", "p.y", "r", "r.x", "r.y"}}
     [] g = "G9" -> {{"a"}, {"a", "l", "l.x"}, {"a", "l", "l.x", "l.y"}}
+    [] g = "G11" -> {{"a"}, {"a", "o", "o.x", "o.y", "p", "p.x", "p.y", "q", "q.x", "q.y"}, {"a", "p", "p.x", "p.y"}, {"a", "o", "o.x", "p", "p.x"}, {"a", "p", "p.x", "q", "q.x", "q.y"}}
 
 ---------------------------------------------------------------------------
 \* variants
@@ -143,7 +152,7 @@ ViewTable(k, t, v) ==
        IF m = {} THEN {} ELSE {IF e.sub[2] = "=" THEN Nest(e.attr, e.sub[1], OwnView(AttrOf(k, t, e.attr))) ELSE e : e \in Range((CHOOSE w \in m : TRUE).attrs)}
 
 BaseView(g, t, v) == LET m == {w \in Range(BaseViews(g, t)) : w.name = v} IN IF m = {} THEN {} ELSE Range((CHOOSE w \in m : TRUE).attrs)
-SelAttrs(g, t) == {e.attr : e \in {x \in BaseView(g, t, "default") : x.sub[1] = "-" /\ x \notin BaseView(g, t, "tiny")}}
+SelAttrs(g, t) == {e.attr : e \in {x \in BaseView(g, Like(t), "default") : x.sub[1] = "-" /\ x \notin BaseView(g, Like(t), "tiny")}}
 NestedSingles(k, t) == {a.attr : a \in {x \in Range(Attrs(k, t)) : x.typ # "-" /\ ~x.coll}}
 Required(k, t) == BaseReq(k.g, t) \cup (CASE k.req = "sel" -> SelAttrs(k.g, t) [] k.req = "oth" -> {Extra(t)} [] k.req = "nest" -> NestedSingles(k, t) [] OTHER -> {})
 Validated(k, t) == CASE k.req = "sel" -> SelAttrs(k.g, t) [] k.req = "oth" -> {Extra(t)} [] OTHER -> {}
